@@ -2,10 +2,11 @@
 
 Shapes (anything else is left untouched):
   S1  CHAIN.for_each(|PAT| BODY);                  CHAIN := SRC | SRC.zip(CHAIN) | izip!(SRC, SRC, ...)
-  S2  for PAT in CHAIN { BODY }                    SRC   := E.iter() | E.iter_mut() [.step_by(G)] [.take(N)] [.skip(K)]
+  S2  for PAT in CHAIN { BODY }                    SRC   := E.iter() | E.iter_mut() [.step_by(G)] [.take(N)] [.skip(K)] | E.chunks_exact(G) | E.chunks_exact_mut(G)
   S3  for j in (LO..HI).rev() { BODY }             (countdown while)
   S4  for v in IDENT { BODY }                      (IDENT a bare identifier: `&mut [T]` parameter)
   S5  (LO..HI).for_each(|i| BODY);
+  S7  for (P, Q) in (A..B).zip(C..D) { BODY }      (two counters advancing together over the shorter range)
   R7  (x, y) = (e1, e2);   /  let (x, y): (T, U);
 
 Each S1/S2/S4 loop becomes
@@ -23,6 +24,7 @@ class Src:
     def __init__(self, expr, mutable, step=None, take=None, skip=None):
         self.expr, self.mutable, self.step, self.take, self.skip = expr, mutable, step, take, skip
         self.enumerate = False
+        self.chunk = None      # E.chunks_exact(G) / E.chunks_exact_mut(G): element k is the sub-slice E[k*G .. k*G + G], E.len() / G of them (the remainder is not visited)
 
 def _parse_method_chain(toks):
     """toks: code tokens of an expression `E.m1(args).m2(args)...` -> (base_tokens, [(name, args_tokens)])
@@ -71,6 +73,11 @@ def _parse_chain(toks):
         return None
     # locate iter / iter_mut
     names = [c[0] for c in calls]
+    if names[0] in ('chunks_exact', 'chunks_exact_mut') and calls[0][1] and len(calls) == 1:
+        base_txt = ''.join(t.text if t.kind != 'ws' else ' ' for t in base)
+        src = Src(base_txt, names[0] == 'chunks_exact_mut')
+        src.chunk = text_of(calls[0][1]).strip()
+        return [src]
     if names[0] not in ('iter', 'iter_mut') or calls[0][1]:
         # maybe E itself has method calls before iter: find first iter/iter_mut
         idx = None
@@ -182,7 +189,7 @@ def _gen_loop(ctx, srcs, names, body_text, fired, kind='for-gen'):
         for t in lex(s.expr):
             if t.kind == 'id':
                 src_idents.add(t.text)
-        for e in (s.step, s.take, s.skip):
+        for e in (s.step, s.take, s.skip, s.chunk):
             if e:
                 for t in lex(e):
                     if t.kind == 'id':
@@ -199,6 +206,9 @@ def _gen_loop(ctx, srcs, names, body_text, fired, kind='for-gen'):
     pre = []
     for si, s in enumerate(srcs):
         L = f'({s.expr}).len()'
+        if s.chunk is not None:
+            pre.append(f'if ({s.chunk}) == 0 {{ vpanic(); }}')
+            L = f'{L} / ({s.chunk})'
         if s.take is not None:
             L = f'vmin({L}, {s.take})'
         if s.skip is not None:
@@ -210,7 +220,7 @@ def _gen_loop(ctx, srcs, names, body_text, fired, kind='for-gen'):
     n_expr = lens[0]
     for L in lens[1:]:
         n_expr = f'vmin({n_expr}, {L})'
-    lines = ['{']
+    lines = [';{']      # the empty statement keeps a preceding `for .. invariant .. { }` loop from being parsed together with this block
     lines += pre
     lines.append(f'let n__{K}: usize = {n_expr};')
     lines.append(f'let mut i__{K}: usize = 0;')
@@ -225,6 +235,9 @@ def _gen_loop(ctx, srcs, names, body_text, fired, kind='for-gen'):
         if s.skip is not None:
             idx = f'{idx} + ({s.skip})'
         amp = '&mut ' if s.mutable else '&'
+        if s.chunk is not None:
+            lines.append(f'let {new} = {amp}{s.expr}[{idx} * ({s.chunk})..{idx} * ({s.chunk}) + ({s.chunk})];')
+            continue
         lines.append(f'let {new} = {amp}{s.expr}[{idx}];')
     bt = _exit_rewrite(body_text, kind, K).strip()
     lines.append(bt if bt.endswith('}') or bt.endswith(';') else bt + ';')
@@ -236,6 +249,8 @@ def _gen_loop(ctx, srcs, names, body_text, fired, kind='for-gen'):
 
 def apply(body, fired):
     body = _s6(body, fired)
+    _s7_k[0] = 0
+    body = _s7(body, fired)
     ctx = Ctx()
     changed = True
     guard = 0
@@ -416,6 +431,35 @@ def _s6(body, fired):
             raise ExtractError('R4/S6: unsupported loop body / bounds')
         new = ('{ let mut %s: usize = %s; let mut %s: usize = %s; while %s < %s {' % (P, A, Q, B, Q, C)
                + inner + ' %s += %s; %s += %s; } }' % (P, S, Q, T))
+        body = body[:m.start()] + new + body[toks[cb].end:]
+        fired.add('R4')
+
+_S7 = re.compile(r'for\s*\(\s*(\w+)\s*,\s*(\w+)\s*\)\s*in\s*\(\s*([^()]+?)\s*\.\.\s*([^()]+?)\s*\)\s*\.zip\(\s*([^()]+?)\s*\.\.\s*([^()]+?)\s*\)\s*\{')
+_s7_k = [0]
+def _s7(body, fired):
+    """S7  for (P, Q) in (A..B).zip(C..D) { BODY }
+         -> { let a: usize = A; let c: usize = C; let n: usize = vmin(vsub_sat(B, a), vsub_sat(D, c)); let mut z = 0; while z < n { let P = a + z; let Q = c + z; BODY z += 1; } }
+    (bounds are evaluated once, before the loop, in source order; they must not mention P or Q; BODY must not `continue` / `break`)"""
+    guard = 0
+    while True:
+        guard += 1
+        if guard > 50:
+            raise ExtractError('R4/S7 does not terminate')
+        m = _S7.search(body)
+        if not m:
+            return body
+        P, Q, A, B, C, D = m.groups()
+        toks = lex(body)
+        ob = next(ix for ix, t in enumerate(toks) if t.start == m.end() - 1)
+        cb = match_close(toks, ob)
+        inner = body[toks[ob].end:toks[cb].start]
+        if re.search(r'\b(continue|break)\b', inner) or re.search(r'\b(%s|%s)\b' % (P, Q), A + B + C + D):
+            raise ExtractError('R4/S7: unsupported loop body / bounds')
+        _s7_k[0] += 1
+        K = _s7_k[0]
+        new = (';{ let za__%d: usize = %s; let zb__%d: usize = %s; let zc__%d: usize = %s; let zd__%d: usize = %s; let zn__%d: usize = vmin(vsub_sat(zb__%d, za__%d), vsub_sat(zd__%d, zc__%d)); let mut z__%d: usize = 0;\nwhile z__%d < zn__%d\n{ let %s: usize = za__%d + z__%d; let %s: usize = zc__%d + z__%d;'
+               % (K, A, K, B, K, C, K, D, K, K, K, K, K, K, K, K, P, K, K, Q, K, K)
+               + inner + ' z__%d += 1; } }' % K)
         body = body[:m.start()] + new + body[toks[cb].end:]
         fired.add('R4')
 
